@@ -116,6 +116,7 @@ func init() {
 			runG4(c.Repo, c.Rep)
 			runG10(c.Repo, c.Rep)
 			g10DeleteRemoves(c.Repo, c.Rep)
+			g26DirectoryKnown(c.Repo, c.Rep)
 			g14ReservedProvenance(c)
 			g14VisitContinues(c.Repo, c.Rep)
 			g16Load(c)
@@ -137,6 +138,7 @@ func init() {
 			// the derived file's path comes from the first listed user file: a package none of whose files is listed gets a path
 			// relative to the working directory (G10: every user file is listed, print-or-delete goes to (*pkg).Filename())
 			runG10(c.Repo, c.Rep)
+			g26DirectoryKnown(c.Repo, c.Rep)
 			g16PosOrder(c.Repo, c.Rep)
 			g14ReservedProvenance(c)
 			c.Rep.floor("G6", 8)
@@ -164,6 +166,7 @@ func init() {
 	}
 	checks["C10"] = &checkDef{
 		run: func(c *Ctx) {
+			g26DirectoryKnown(c.Repo, c.Rep)
 			runG4(c.Repo, c.Rep)
 			runG5(c.Repo, c.Rep)
 			g16RewriteGuard(c.Repo, c.Rep)
